@@ -20,7 +20,7 @@ Definition front_parse (conv : numconv) (lineMode : bool) (src : bytes) : poutco
 Definition clean (r : presult) : bool :=
   match pr_errs r with [] => negb (pr_cont r) | _ => false end.
 
-(* structural equality of trees *)
+(* structural equality of trees, modulo the layout flags of comments *)
 Definition tok_eq := tok_eqb.
 Fixpoint node_eqb (a b : node) {struct a} : bool :=
   let oe := fun (x y : option node) =>
@@ -46,7 +46,7 @@ Fixpoint node_eqb (a b : node) {struct a} : bool :=
   | NFloat t v, NFloat u w => tok_eqb t u && N.eqb v w
   | NString t, NString u => tok_eqb t u
   | NBool t v, NBool u w => tok_eqb t u && Bool.eqb v w
-  | NComment t p n, NComment u q m => tok_eqb t u && Bool.eqb p q && Bool.eqb n m
+  | NComment t _ _, NComment u _ _ => tok_eqb t u   (* the two layout flags are not part of structural identity (C03's subject) *)
   | NControl t, NControl u => tok_eqb t u
   | NReturn t v, NReturn u w => tok_eqb t u && oe v w
   | NStmts l, NStmts m => le l m
